@@ -257,4 +257,46 @@ def noLossy : Prog → Bool
   | .cb _ _ _ => false
   | .spawn _ _ k => noLossy k
 
+/-! ### evaluations on a VM that has been used before (`Run`, `Call`, `RunCode` again)
+
+Every entry point goes through `start()`: `halt := 0`, a NEW watcher goroutine for the
+context it was given now — whatever the VM ran before, with whatever context, and whether
+or not that context has already fired (a watcher for a fired context is enabled at once).
+`RunCode` on a used VM then calls `resetForNewCode()`, which stores `halt := 0` a second
+time, AFTER the watcher was launched: when the context had already fired before the start,
+the watcher may run in between, its store is wiped and it has exited — the evaluation is
+left without any watcher (`lost`). -/
+
+/-- how the host starts an evaluation on the main VM -/
+inductive Entry where
+  | run      -- vm.Run  (first evaluation of a fresh VM)
+  | call     -- vm.Call on a VM that ran before: start(); callFunction
+  | runCode  -- vm.RunCode on a VM that ran before: start(); resetForNewCode(); eval
+  deriving DecidableEq, Repr, Inhabited
+
+/-- can the store of the watcher armed by this `start()` be wiped?  Only by the second
+    `halt := 0` of `RunCode` on a used VM, and only when the context had fired before the
+    start (otherwise the watcher is still waiting when the reset happens) -/
+def canLose (e : Entry) (firedBefore : Bool) : Bool :=
+  match e with
+  | .runCode => firedBefore
+  | _ => false
+
+/-- the main thread after `start()` (+ `resetForNewCode()`) on a VM in ANY earlier state
+    `t`: nothing of the earlier evaluation survives in what cancellation depends on.
+    `lost = true` is the `RunCode` race above (only possible when `canLose`). -/
+def restart (lost : Bool) (t : Thread) (p : Prog) : Thread :=
+  { t with halt := false, armed := !lost, st := .run p, frames := [] }
+
+/-- a system whose main VM is started again with program `p`; the threads spawned by
+    earlier evaluations go on as they are (they run on their own clones) -/
+def restartSys (lost : Bool) (s : Sys) (p : Prog) : Sys :=
+  match s.threads with
+  | [] => s
+  | m :: cl => { s with threads := restart lost m p :: cl }
+
+/-- a representative used main VM: its last evaluation was stopped by the poll -/
+def usedMain : Thread :=
+  { id := 0, halt := true, armed := true, st := .fin (some .ctx), frames := [] }
+
 end Risor.C06
